@@ -712,3 +712,41 @@ func (p *Program) callOrdinal(site ssa.Instruction, name string) int {
 	}
 	return -1
 }
+
+// kindOrdinal: index (in source order) of an instruction among those of the same
+// hookable kind (append, send, return) in its function.
+func (p *Program) kindOrdinal(site ssa.Instruction, kind string) int {
+	fn := site.Parent()
+	type ent struct {
+		in  ssa.Instruction
+		pos token.Pos
+	}
+	var list []ent
+	for _, b := range fn.Blocks {
+		for _, in := range b.Instrs {
+			match := false
+			switch x := in.(type) {
+			case *ssa.Call:
+				if bi, ok := x.Call.Value.(*ssa.Builtin); ok && bi.Name() == kind {
+					match = true
+				}
+			case *ssa.MapUpdate:
+				match = kind == "mapupdate"
+			case *ssa.Send:
+				match = kind == "send"
+			case *ssa.Return:
+				match = kind == "return"
+			}
+			if match {
+				list = append(list, ent{in, in.Pos()})
+			}
+		}
+	}
+	sort.SliceStable(list, func(i, j int) bool { return list[i].pos < list[j].pos })
+	for i, e := range list {
+		if e.in == site {
+			return i
+		}
+	}
+	return -1
+}
